@@ -1,6 +1,8 @@
 mod print;
 mod treap;
 mod treap_node;
+#[cfg(feature = "verif")]
+pub mod verif;
 
 pub use print::TreePrinter;
 pub use treap::Treap;
